@@ -311,7 +311,7 @@ func genC16Case(t *rapid.T) C16Case {
 			if !vacuumed && rapid.IntRange(0, 2).Draw(t, "fv") == 0 {
 				// a vacuum whose own commit runs under a storage fault; the history goes on
 				c.Steps = append(c.Steps, HStep{Op: "faulty-vacuum", FailAt: rapid.IntRange(1, 6).Draw(t, "vfail"),
-					FailKind: rapid.SampledFrom([]string{"", "", "node-deletes", "version-deletes"}).Draw(t, "vkind")})
+					FailKind: rapid.SampledFrom([]string{"", "", "node-deletes", "version-deletes", "merged-deletes"}).Draw(t, "vkind")})
 				vacuumed = true
 			} else {
 				c.Steps = append(c.Steps, HStep{Op: "reopen"})
@@ -601,6 +601,11 @@ func runC16(c C16Case, o *Obs) error {
 					return nil
 				case "version-deletes":
 					if q.Op == "DELETE" && strings.Contains(q.Key, "/root/") {
+						return fakes3.ErrInjected
+					}
+					return nil
+				case "merged-deletes":
+					if q.Op == "DELETE" && strings.Contains(q.Key, "/root/merged/") {
 						return fakes3.ErrInjected
 					}
 					return nil
